@@ -602,6 +602,16 @@ class Class(metaclass=mixin.MixinMeta):  # pylint: disable=undefined-variable
   def compute_mro(self):
     """Compute the class precedence list (mro) according to C3."""
     bases = abstract_utils.get_mro_bases(self.bases())
+    # Like CPython ("duplicate base class"), refuse a class statement that lists
+    # the same base twice; MROMerge would silently drop the repetition.
+    seen = set()
+    for base in bases:
+      if getattr(base, "SINGLETON", False):
+        continue  # Unknown/Any bases may legitimately repeat.
+      base_cls = getattr(base, "base_cls", base)
+      if base_cls in seen:
+        raise mro.MROError([list(bases)])
+      seen.add(base_cls)
     bases = [[self]] + [list(base.mro) for base in bases] + [list(bases)]
     base2cls = {}
     newbases = []
